@@ -51,6 +51,14 @@ def derive(case):
                 reach=reach, mw=mw)
 
 
+def phase_case(case, rec):
+    """the case as seen by one run_tasks call of a (possibly two-call) case"""
+    import dagcase
+    ph = dagcase.phases_of(case)[rec.get('phase', 0)]
+    return dict(case, req=ph['req'], bust=ph['bust'], ctx=ph['ctx'], sched=ph['sched'],
+                pre=dict(rec.get('store_before', case['pre'])))
+
+
 def ref_plain(case):
     """plain sequential dependency-first evaluation with nothing cached"""
     n = len(case['ty'])
@@ -85,7 +93,7 @@ def monitor(case, rec):
     # ---- C01
     all_succeed = all(case['fl'][t] & 3 == 0 for t in closure)
     plain = ref_plain(case)
-    sound = all(case['pre'][t] == plain[t] for t in case['pre'])
+    sound = bool(case['bust']) or all(case['pre'][t] == plain[t] for t in case['pre'] if t in closure)
     if all_succeed and sound and not status.startswith('HANG'):
         want = [(t, plain[t]) for t in d['req_tids']]
         if returned != want:
@@ -142,8 +150,11 @@ def monitor(case, rec):
         elif k == 'W':
             q, r = e[1], e[2]
             blocked = False
-            if not serial and q and len(r) != d['mw']:
-                viol['C05'].append(f'{len(q)} tasks queued while only {len(r)} of {d["mw"]} workers are busy')
+            alive = e[3] if len(e) > 3 else len(r)
+            if not serial and q and alive < d['mw']:
+                viol['C05'].append(f'{len(q)} tasks queued while only {alive} of {d["mw"]} worker slots hold a live process')
+            if not serial and alive > d['mw']:
+                viol['C04'].append(f'{alive} live worker processes, max_workers={d["mw"]}')
             if q:
                 blocked = True
             for t in sorted(closure):
@@ -204,7 +215,8 @@ def monitor(case, rec):
 
     # ---- result_meta marks
     if not status.startswith('HANG'):
-        want_marked = sorted(i for i in d['reach'] if yielded.get(d['tid_of'][i], '').startswith('ok'))
+        want_marked = sorted(set(i for i in d['reach'] if yielded.get(d['tid_of'][i], '').startswith('ok'))
+                             | set(rec.get('marked_before', [])))
         if rec['marked'] != want_marked:
             viol['C03'].append(f'instances with result_meta {rec["marked"]}, expected {want_marked}')
 
@@ -214,6 +226,8 @@ def monitor(case, rec):
         if not status.startswith('returned'):
             if not status.startswith('HANG'):
                 viol['C10'].append(f'continue_on_failure run ended with {status!r}')
+            elif any_fail:
+                viol['C10'].append('a task failed or died and the run never completed: unrelated tasks were not executed/returned')
         else:
             for t in sorted(closure):
                 o = yielded.get(t)
@@ -227,7 +241,6 @@ def monitor(case, rec):
             want_ret = [(t, val[t]) for t in d['req_tids'] if val[t] is not None]
             if returned != want_ret:
                 viol['C10'].append(f'returned {returned}, expected {want_ret}')
-            want_store = dict(case['pre']) if True else {}
             want_store = {t: v for t, v in case['pre'].items() if any(tt == t for tt in d['tid_of'])}
             for t in closure:
                 if val[t] is not None and case['ca'][ty[t]] and not d['cached'](t):
